@@ -74,7 +74,7 @@ class Evaluator:
     def ref(self, seed, recipe_ops, handle):
         """Outcome of the last op of `recipe_ops` executed with fresh objects in a pristine child
         (hash seed `seed`) that executes nothing else."""
-        key = (seed, canon.digest(json.dumps(recipe_ops, sort_keys=True)))
+        key = (seed, canon.digest(json.dumps(recipe_ops)))  # no sort_keys: key order of style dicts is part of the input
         hit = self.memo.get(key)
         if hit is not None:
             self.stats.inc("ref_memo_hits")
